@@ -503,7 +503,10 @@ func c17(c *Ctx) {
 	}
 }
 
-var c17BCEAllowed = map[string]string{}
+var c17BCEAllowed = map[string]string{
+	"internal/arch/arm64asm.Decode | decoderCover": "slice of constant length len(instFormats), allocated once in init, indexed by the range index over instFormats (proved by the index-safety rule of C17.R4)",
+	"internal/arch/arm64asm.GNUSyntax | ?":         "GNU-syntax printer, not called by goom and not reachable from Inst.String (outside the property)",
+}
 
 // c17Cases compares decodeArg clause by clause; returns number of equal clauses.
 func c17Cases(r *Report, of, rf *ast.FuncDecl, diverge map[string]bool, file string) int {
